@@ -181,3 +181,87 @@ class Report:
         print('%s %s: %d obligations over %d rules, %d held, %d violated (%d known findings), %.1fs'
               % (self.prop, self.tier, len(self.obls), len(self.rules), len(held), len(viol), len(viol) - len(new), wall))
         return 1 if new else 0
+
+
+# ---------------------------------------------------------------------------------------------------------------------------
+# per-tree memo of expensive rules that several properties share
+
+_CODE_HASH = [None]
+
+
+def _code_hash():
+    if _CODE_HASH[0] is None:
+        import hashlib
+        h = hashlib.sha256()
+        for sub in ('rules', 'lib', 'support'):
+            d = os.path.join(VERIF, sub)
+            for dp, dn, fn in os.walk(d):
+                dn.sort()
+                for f in sorted(fn):
+                    if f.endswith(('.py', '.json')):
+                        with open(os.path.join(dp, f), 'rb') as fh:
+                            h.update(f.encode() + b'\0' + hashlib.sha256(fh.read()).digest())
+        _CODE_HASH[0] = h.hexdigest()[:16]
+    return _CODE_HASH[0]
+
+
+def memo_rule(ctx, R, name, fn):
+    """Runs fn(R2) on a scratch report once per analysed tree (the cache directory is keyed by the content of the tree and of the extractors; the file name by
+    the checker's own code, the tier and the strict-family switch) and replays its rules / obligations / evidence into R.  An analysis-broken outcome is never stored."""
+    d = os.path.join(ctx.cdir, 'rulememo')
+    path = os.path.join(d, '%s.%s.%s%s.json' % (re_safe(name), ctx.tier, _code_hash(), '.strict' if os.environ.get('RXVERIF_STRICT_FAMILY') else ''))
+    data = None
+    if os.path.exists(path):
+        try:
+            with open(path) as fh:
+                data = json.load(fh)
+        except (OSError, ValueError):
+            data = None
+    if data is None:
+        R2 = Report(R.prop, R.tier, R.level)
+        fn(R2)
+        data = dict(rules=[(rid, r['desc'], r['min']) for rid, r in R2.rules.items()], obls=R2.obls, functions=sorted(R2.functions), units=sorted(R2.units), configs=sorted(R2.configs),
+                    assumptions=R2.assumptions, notes=R2.notes, extra=R2.extra, broken=R2.broken)
+        if not R2.broken:
+            try:
+                os.makedirs(d, exist_ok=True)
+                tmp = '%s.%d.tmp' % (path, os.getpid())
+                with open(tmp, 'w') as fh:
+                    json.dump(data, fh)
+                os.replace(tmp, path)
+            except (OSError, TypeError, ValueError):
+                pass
+    for rid, desc, mn in data['rules']:
+        R.rule(rid, desc, mn)
+    for o in data['obls']:
+        R._add(o['status'], o['instance'], o['loc'], o.get('expected'), o.get('found'), o.get('detail', ''), o['rule'])
+    R.functions.update(data['functions'])
+    R.units.update(data['units'])
+    R.configs.update(data['configs'])
+    for a in data['assumptions']:
+        R.assume(a)
+    for n_ in data['notes']:
+        R.note(n_)
+    for k_, v_ in data['extra'].items():
+        if isinstance(v_, dict) and isinstance(R.extra.get(k_), dict):
+            R.extra[k_].update(v_)
+        else:
+            R.extra[k_] = v_
+    for b in data.get('broken', []):
+        R.fail_analysis(b)
+
+
+def re_safe(s):
+    import re as _re
+    return _re.sub(r'[^A-Za-z0-9_.-]', '_', s)
+
+
+def memoised(name):
+    def deco(fn):
+        def wrapper(ctx, R, *args):
+            key = name + ''.join('.' + str(a) for a in args if isinstance(a, (str, int)))
+            return memo_rule(ctx, R, key, lambda R2: fn(ctx, R2, *args))
+        wrapper.__name__ = fn.__name__
+        wrapper.__doc__ = fn.__doc__
+        return wrapper
+    return deco
